@@ -37,7 +37,7 @@ pub fn meta() -> CheckMeta {
             "dividends are shortened until the predicted growth of the quotient stays below 1e40, so that no intermediate overflows".into(),
         ],
         exhaustive: false,
-        stuck_is_violation: false,
+        stuck_is_violation: true,
     }
 }
 
@@ -337,6 +337,13 @@ fn gen_divisor(rng: &mut Rng, complex: bool, deg: usize) -> (Vec<C64>, String) {
         let m = rng.log10(-1.0, 3.0);
         d[deg] = if lead.norm() > 0.0 { lead / lead.norm() * m } else { rand_unit(rng, complex) * m };
     }
+    if deg >= 1 && rng.chance(0.06) {
+        // one lower coefficient many orders of magnitude above the (non-negligible) leading one:
+        // x^2 + 4e10 is as valid a divisor as any
+        let k = rng.below(deg);
+        d[k] = rand_unit(rng, complex) * rng.log10(9.0, 13.0);
+        shape.push_str("+huge-lower-coefficient");
+    }
     (d, shape)
 }
 
@@ -365,7 +372,9 @@ fn gen_case(rng: &mut Rng, complex: bool, kind: Kind) -> DivCase {
             let (mut a, shape) = gen_poly(rng, complex, da);
             let mut shape = shape.to_string();
             shape.push_str(decorate(rng, complex, &mut a, tol_a.unwrap_or(DEFAULT_TOL)));
-            let m = rng.log10(-1.0, 3.0);
+            // (a tenth of the constants are huge: the quotient's coefficients are then far below the
+            // default zero tolerance and still have to be the scaled coefficients)
+            let m = if rng.chance(0.1) { rng.log10(8.0, 13.0) } else { rng.log10(-1.0, 3.0) };
             let cst = match rng.below(6) {
                 0 => C64::new(m, 0.0),
                 1 => C64::new(-m, 0.0),
